@@ -207,7 +207,6 @@ func c12One(run *hx.Run, data []byte, o op, pi int, dbname string, maxR int64) {
 	}
 }
 
-
 // c12Splice: "any structure is found to be corrupt": an index that still has
 // entries for rows the table lost (index pages from before a DELETE, everything
 // else from after it). Success must mean a correct result: no duplicated row,
